@@ -64,7 +64,7 @@ class TriangularPoint(LibrationPoint):
     -----
     A warning is logged if mu > mu_R.
     """
-    ROUTH_CRITICAL_MU = (1.0 - np.sqrt(1.0 - (1.0/27.0))) / 2.0 # approx 0.03852
+    ROUTH_CRITICAL_MU = (1.0 - np.sqrt(1.0 - (4.0/27.0))) / 2.0 # approx 0.03852
     
     def __init__(self, system: "System"):
         super().__init__(system)
